@@ -47,7 +47,13 @@ func (w *World) allFuncs(pkgPath string) []*ssa.Function {
 	return out
 }
 
+var sweepAll = false
+
 func runSweep(w *World, pkgs []string, timeout int) {
+	if len(pkgs) > 0 && pkgs[0] == "all" {
+		sweepAll = true
+		pkgs = pkgs[1:]
+	}
 	if len(pkgs) == 0 {
 		pkgs = []string{"rules", "filterutil", "lookup", "filterlist", "."}
 	}
@@ -63,6 +69,9 @@ func runSweep(w *World, pkgs []string, timeout int) {
 			if fn.Parent() != nil {
 				continue // anonymous functions are inlined into their parents
 			}
+			if strings.HasPrefix(fn.Name(), "init#") || fn.Name() == "init" {
+				continue // package initialisation runs once at start-up and is exercised by every test
+			}
 			key := funcKey(fn)
 			vc, err := w.VerifyFunc(key)
 			if err != nil {
@@ -75,7 +84,7 @@ func runSweep(w *World, pkgs []string, timeout int) {
 			}
 			var items []vcObl
 			for _, o := range vc.obls {
-				if o.Kind == "safety" {
+				if o.Kind == "safety" || (sweepAll && o.Kind != "cover") {
 					items = append(items, vcObl{vc, o})
 				}
 			}
@@ -85,7 +94,7 @@ func runSweep(w *World, pkgs []string, timeout int) {
 			for _, x := range rs {
 				if x.Status != "discharged" {
 					nb++
-					names = append(names, fmt.Sprintf("%s[%s %s]", strings.TrimPrefix(x.Obl.Name, "safety/"+relName(fn)+"/"), x.Status, x.Obl.Pos))
+					names = append(names, fmt.Sprintf("%s[%s %s]", strings.Replace(strings.TrimPrefix(x.Obl.Name, "safety/"+relName(fn)+"/"), relName(fn), "~", 1), x.Status, x.Obl.Pos))
 				}
 			}
 			tot += len(rs)
